@@ -146,11 +146,8 @@ def rule_a(ctx):
     fo = _F(symbolic=True)
     fo.func_stack.append(init.node)
     env = {init.params[0]: me, init.params[1]: ms + [_O("m2", {})]}
-    for st in init.node.body:
-        try:
-            fo.stmt(st, env)
-        except (_Re, _Ra):
-            pass
+    from ..fold import fold_stmts
+    fold_stmts(fo, init.node.body, env)
     npar = me.fields.get("num_parameters")
     if isinstance(npar, int):
         ctx.ob(R, init.qname, "CombinedModel: num_parameters is the sum over the sub-models (models without parameters count 0)", npar == 5, f"sub-models with 2, 3 and no parameters give num_parameters = {npar}", init.node, evidence=True)
@@ -785,11 +782,8 @@ def rule_j(ctx):
     fo.fold_all_methods = True
     me = Obj("self", {"__class__": "KernelInterpolation", "supports": Opaque("arr", "S"), "values": Opaque("arr", "V"), "kernel": lambda a, k: Sym("K", a, k), "num_supports": 2})
     env = {f.params[0]: me}
-    for st_ in f.node.body:
-        try:
-            fo.stmt(st_, env)
-        except (Refuse, Raised):
-            continue
+    from ..fold import fold_stmts
+    fold_stmts(fo, f.node.body, env)
     ts, tv = nf(me.fields.get("supports")), nf(me.fields.get("values"))
     def _last_subscript(t):
         """(base, index) of a term that ends in a subscript, bracket-matched from the right; None otherwise."""
